@@ -184,6 +184,36 @@ def t2s_cases(sp, thorough):
     return out
 
 
+def t5_cases(sp, thorough):
+    """Shapes whose factors combine into another dimension (V/L -> A, A*L -> V, E/F -> L,
+    P*T -> E, F/A -> Pr ...): a named derived unit next to a base unit on one side, a unit of
+    the resulting dimension (named, or spelled as a power) on the other, both directions,
+    prefixes on either side.  One direction is often unplannable; whatever returns is judged."""
+    out = []
+    rel = [("V", "L", -1, "A", 2), ("V", "A", -1, "L", 1), ("A", "L", -1, "L", 1), ("A", "L", 1, "V", 3), ("E", "F", -1, "L", 1),
+           ("E", "L", -1, "F", None), ("P", "T", 1, "E", None), ("E", "T", -1, "P", None), ("F", "A", -1, "Pr", None),
+           ("Pr", "A", 1, "F", None), ("V", "T", -1, "V", None)]
+    k = 3 if thorough else 2
+    prefixes = [None, "milli", "kilo"] + (["micro", "mebi"] if thorough else [])
+    for X, Y, ey, Z, zpow in rel:
+        for x in POOLS[X][:k]:
+            for y in POOLS[Y][:k]:
+                targets = [((z, 1),) for z in POOLS[Z][:k]]
+                if zpow:
+                    targets += [((l, zpow),) for l in POOLS["L"][:2]]
+                if Z == "V" and X == "V":
+                    targets = [((z, 1), (y, ey)) for z in POOLS["V"][:k] if z != x]
+                for dst in targets:
+                    src = ((x, 1), (y, ey))
+                    for p in prefixes:
+                        for q in prefixes:
+                            if p and q and not thorough:
+                                continue
+                            out.append(((p, src), (q, dst)))
+                            out.append(((q, dst), (p, src)))
+    return out
+
+
 def _spellings(parts, pools):
     choices = [[(n, e) for n in pools[k]] for k, e in parts]
     for combo in itertools.product(*choices):
@@ -247,7 +277,7 @@ def t4_cases(sp, thorough):
     return out
 
 
-TIERS = [("T1", t1_cases), ("T1p", t1p_cases), ("T1q", t1q_cases), ("T2", t2_cases), ("T2s", t2s_cases), ("T3", t3_cases), ("T4", t4_cases)]
+TIERS = [("T1", t1_cases), ("T1p", t1p_cases), ("T1q", t1q_cases), ("T2", t2_cases), ("T2s", t2s_cases), ("T3", t3_cases), ("T4", t4_cases), ("T5", t5_cases)]
 
 
 # ------------------------------------------------------------------ judging one case
